@@ -213,7 +213,7 @@ def step (st : St) (j : Json) : St × List String :=
   | "listnames" =>
     -- fs.ListPrivateKeys over a tree of regular files (relative paths): the key names, sorted
     let names := fsListNames ((jStrs j "files").map unhex) entryType
-    (st, ["listnames [" ++ String.intercalate "," (sortStrs (names.map hex)) ++ "]"])
+    (st, ["listnames [" ++ String.intercalate "," (sortStrs (names.map fun n => "n:" ++ hex n)) ++ "]"])
   | "dpopseq" =>
     -- the same dpop.DPoP signed for several kids; `preset` = a jwk header the caller put on the token before
     let h0 : Headers := if jStr j "preset" == "" then [("typ", .str "dpop+jwt")] else [("typ", .str "dpop+jwt"), ("jwk", .jwk (jStr j "presetRaw") (jStr j "preset"))]
